@@ -13,9 +13,14 @@
 //            thread's issue order> fulfilled=<promises fulfilled with the full size> other=<rejected or wrong value>
 //   E <busy ms> <size>                    A's write of <size> bytes is blocked; while the worker is busy for <busy ms> in another connection's
 //        handler, A sends bytes and starts reading, so its descriptor becomes readable and writable in the same poll result
+//        E <busy ms> <size> f : A's bytes are a command whose handler queues 4 more bytes and calls Transport::flush(): the queue is drained
+//        (and its table entry erased) while the readable half is handled, then the writable half of the same result is looked at
 //     -> E bytes=<received> content=<1|0> p=<value|R|P>
 //   S <stall ms> <size>                   connection A asks for <size> bytes and does not read for <stall ms> after the kernel first refused bytes for it;
 //        connection B (same single worker) sends a request after a third of that time
+//        S <stall ms> <size> f : the handler flushes (Transport::flush() on the worker thread) after queueing the big write, then 16 times queues 4
+//        more bytes and flushes again - what a handler streaming a response in flushed chunks does: the second flush attempts a
+//        send on the blocked descriptor that makes no progress; A's receive buffer is 4 kB
 //     -> S b_answered=<1|0> b_latency_ok=<1|0> spin=<1 if more than 1000 send calls were made on A while stalled> a_content=<1|0> a_value=<1|0>
 #include <pistache/listener.h>
 #include <pistache/tcp.h>
@@ -88,6 +93,7 @@ std::vector<size_t> g_sizes;
 std::vector<char> g_kinds; // 'r' memory buffer, 'f' file buffer (sendfile)
 std::vector<std::string> g_files;
 bool g_foreign = false;
+bool g_fixed_sndbuf = false; // S ... f: flush twice from the handler; A has a small receive buffer, so that the blocked socket stays full
 
 class WriteHandler : public Tcp::Handler
 {
@@ -104,6 +110,7 @@ public:
         if (cmd.rfind("go", 0) == 0)
         {
             g_script.fd = peer->fd();
+
             auto issue  = [this, peer] {
                 for (size_t i = 0; i < g_sizes.size(); ++i)
                 {
@@ -129,6 +136,18 @@ public:
                 std::thread(issue).detach();
             else
                 issue();
+            if (g_fixed_sndbuf)
+            {
+                // what a handler streaming its answer in flushed pieces does: the first flush fills the socket, the
+                // second one attempts a send on the blocked descriptor that makes no progress at all
+                transport()->flush();
+                for (int k = 0; k < 16; ++k)
+                {
+                    std::string data = "TAIL";
+                    transport()->asyncWrite(peer->fd(), RawBuffer(data, data.size()), MSG_NOSIGNAL);
+                    transport()->flush();
+                }
+            }
         }
         else if (cmd.rfind("multi", 0) == 0)
         {
@@ -167,6 +186,12 @@ public:
         {
             // keep the worker busy so that several kinds of readiness pile up for its next poll
             std::this_thread::sleep_for(std::chrono::milliseconds(atoi(cmd.c_str() + 5)));
+        }
+        else if (cmd.rfind("flushq", 0) == 0)
+        {
+            std::string data = "TAIL";
+            transport()->asyncWrite(peer->fd(), RawBuffer(data, data.size()), MSG_NOSIGNAL);
+            transport()->flush();
         }
         else if (cmd.rfind("ping", 0) == 0)
         {
@@ -297,7 +322,23 @@ static std::string handle(const std::string& line)
     uint16_t port = listener.getPort();
     std::ostringstream os;
 
-    int a = pv::connect_loopback(port);
+    g_fixed_sndbuf = t[0] == "S" && t.size() > 3 && t[3] == "f";
+    int a;
+    if (g_fixed_sndbuf)
+    {
+        // a small, fixed receive buffer on A's side as well: once blocked, the connection takes no byte until A reads
+        a         = ::socket(AF_INET, SOCK_STREAM, 0);
+        int small = 4096;
+        setsockopt(a, SOL_SOCKET, SO_RCVBUF, &small, sizeof small);
+        sockaddr_in sa {};
+        sa.sin_family      = AF_INET;
+        sa.sin_addr.s_addr = htonl(INADDR_LOOPBACK);
+        sa.sin_port        = htons(port);
+        if (::connect(a, reinterpret_cast<sockaddr*>(&sa), sizeof sa) != 0)
+            return "BADCASE connect";
+    }
+    else
+        a = pv::connect_loopback(port);
     pv::send_all(a, "go\n");
     if (t[0] == "X" || t[0] == "F")
     {
@@ -410,7 +451,16 @@ static std::string handle(const std::string& line)
         int b = pv::connect_loopback(port);
         pv::send_all(b, "sleep" + t[1]);
         std::this_thread::sleep_for(std::chrono::milliseconds(30));
-        pv::send_all(a, "noop");
+        if (t.size() > 3 && t[3] == "f")
+        {
+            // the handler of A's input queues 4 more bytes and flushes: A is draining, so the whole queue goes out (and its
+            // table entry with it) while the readable half of the event is handled; the writable half follows
+            pv::send_all(a, "flushq");
+            total += 4;
+            expected += "TAIL";
+        }
+        else
+            pv::send_all(a, "noop");
         std::string got;
         pv::read_until(a, got, [&](const std::string& x) { return x.size() >= total; }, 3000);
         for (int k = 0; k < 200; ++k)
@@ -439,8 +489,23 @@ static std::string handle(const std::string& line)
         // ordinary work of the worker and is not what is measured)
         for (int k = 0; k < 4000 && !g_script.eagain_seen; ++k)
             std::this_thread::sleep_for(std::chrono::milliseconds(5));
-        std::this_thread::sleep_for(std::chrono::milliseconds(stall / 3));
-        long calls_before = g_script.calls.load();
+        const size_t big_total = total;
+        bool with_flush = t.size() > 3 && t[3] == "f";
+        long calls_before = 0;
+        if (with_flush)
+        {
+            // the handler has flushed twice (see "go"): everything it queued is pending behind the blocked write
+            calls_before = g_script.calls.load();
+            total += 16 * 4;
+            for (int k = 0; k < 16; ++k)
+                expected += "TAIL";
+            std::this_thread::sleep_for(std::chrono::milliseconds(30));
+        }
+        else
+        {
+            std::this_thread::sleep_for(std::chrono::milliseconds(stall / 3));
+            calls_before = g_script.calls.load();
+        }
         int b             = pv::connect_loopback(port);
         auto t0           = std::chrono::steady_clock::now();
         pv::send_all(b, "ping\n");
@@ -463,7 +528,7 @@ static std::string handle(const std::string& line)
         std::lock_guard<std::mutex> g(g_res.m);
         os << "S b_answered=" << (answered ? 1 : 0) << " b_latency_ok=" << ((answered && lat < stall / 3) ? 1 : 0)
            << " spin=" << (calls_stalled > 1000 ? 1 : 0) << " a_content=" << (got == expected ? 1 : 0)
-           << " a_value=" << (g_res.value[0] == static_cast<long>(total) ? 1 : 0);
+           << " a_value=" << (g_res.value[0] == static_cast<long>(big_total) ? 1 : 0);
         ::close(b);
     }
     if (a >= 0)
